@@ -82,8 +82,7 @@ theorem winInit_shape {mon : Bool} {w src : Sym} {isW : Bool} {los strs : List C
 
 /-- conclusion for a nested block, given the conclusion for its statement list -/
 theorem block_step {fs fs1 : FS} {base : Nat} {c cb c1 c' : CState V} {ss : List CStmt}
-    (hinv : Inv fs base c) (hv : cb.vals = c.vals) (hs : cb.stat = c.stat) (hh : cb.heap = c.heap)
-    (hfs : fsL { fs with mine := [] } ss = some fs1)
+    (hinv : Inv fs base c) (hs : cb.stat = c.stat) (hh : cb.heap = c.heap)
     (hm : fs1.mine.all (fun x => fs1.dead.contains x) = true)
     (hrun : Step fs1 c.heap.length cb c1 (execCL true ss cb))
     (hl : leaveC false c c1 = .ok c') :
@@ -93,6 +92,132 @@ theorem block_step {fs fs1 : FS} {base : Nat} {c cb c1 c' : CState V} {ss : List
   have := block_close hinv hi1 hm (by rw [hh] at hg; exact hg)
     (fun b hb => by rw [hp b hb, hs]) hl
   exact ⟨by rw [hr]; exact this.1, this.2⟩
+
+theorem evalArg_buf {c : CState V} {a : CArg} {cval : CVal}
+    (h : evalArg c a = .ok (.val cval)) :
+    ∃ z cz, z ∈ argSyms [a] ∧ lookupSym z c.vals = some cz ∧ cz.buf = cval.buf := by
+  cases a with
+  | int e =>
+      simp only [evalArg] at h
+      obtain ⟨v, _, h⟩ := bind_ok h
+      simp [pure, Except.pure] at h
+  | ptr x ad =>
+      simp only [evalArg] at h
+      split at h
+      · rename_i b o hl
+        simp only [pure, Except.pure, Except.ok.injEq, AVal.val.injEq] at h; subst h
+        exact ⟨x, _, by simp [argSyms], hl, rfl⟩
+      · cases h
+  | winVar x =>
+      simp only [evalArg] at h
+      split at h
+      · rename_i b o ss hl
+        simp only [pure, Except.pure, Except.ok.injEq, AVal.val.injEq] at h; subst h
+        exact ⟨x, _, by simp [argSyms], hl, rfl⟩
+      · cases h
+  | win src isW los strs ivs =>
+      simp only [evalArg] at h
+      obtain ⟨ls, _, h⟩ := bind_ok h
+      obtain ⟨ss, _, h⟩ := bind_ok h
+      split at h
+      · simp only [pure, Except.pure, Except.ok.injEq, AVal.val.injEq] at h; subst h
+        refine ⟨src, ?cz1, by simp [argSyms], ?g1, ?g2⟩
+        case g1 => assumption
+        case g2 => rfl
+      · simp only [pure, Except.pure, Except.ok.injEq, AVal.val.injEq] at h; subst h
+        refine ⟨src, ?cz2, by simp [argSyms], ?g3, ?g4⟩
+        case g3 => assumption
+        case g4 => rfl
+      · cases h
+
+theorem argSyms_cons (a : CArg) (r : List CArg) : ∀ z, z ∈ argSyms [a] ∨ z ∈ argSyms r →
+    z ∈ argSyms (a :: r) := by
+  intro z hz
+  cases a <;> simp_all [argSyms]
+
+/-- every pointer / struct the callee receives is (a view into the block of) one the caller passed -/
+theorem bindC_vals {c : CState V} : ∀ (ps : List (Sym × PKind)) (as : List CArg)
+    {ci0 ci : List (Sym × Int)} {cv0 cv : List (Sym × CVal)},
+    bindC c ps as ci0 cv0 = .ok (ci, cv) → ∀ y cval, lookupSym y cv = some cval →
+    lookupSym y cv0 = some cval ∨
+      (y ∈ ps.map (·.1) ∧ ∃ z cz, z ∈ argSyms as ∧ lookupSym z c.vals = some cz ∧ cz.buf = cval.buf)
+  | [], [], _, _, _, _, h, y, cval, hy => by
+      simp only [bindC, pure, Except.pure, Except.ok.injEq, Prod.mk.injEq] at h
+      rw [← h.2] at hy; exact Or.inl hy
+  | [], _ :: _, _, _, _, _, h, _, _, _ => by simp [bindC, throw, throwThe, MonadExceptOf.throw] at h
+  | _ :: _, [], _, _, _, _, h, _, _, _ => by simp [bindC, throw, throwThe, MonadExceptOf.throw] at h
+  | (x, k) :: ps, a :: as, ci0, ci, cv0, cv, h, y, cval, hy => by
+      simp only [bindC] at h
+      obtain ⟨v, hv, h⟩ := bind_ok h
+      have lift : ∀ {cv1 : List (Sym × CVal)} {ci1 : List (Sym × Int)},
+          bindC c ps as ci1 cv1 = .ok (ci, cv) →
+          (∀ cval', lookupSym y cv1 = some cval' → lookupSym y cv0 = some cval' ∨
+            (y = x ∧ ∃ z cz, z ∈ argSyms [a] ∧ lookupSym z c.vals = some cz ∧ cz.buf = cval'.buf)) →
+          lookupSym y cv0 = some cval ∨ (y ∈ ((x, k) :: ps).map (·.1) ∧
+            ∃ z cz, z ∈ argSyms (a :: as) ∧ lookupSym z c.vals = some cz ∧ cz.buf = cval.buf) := by
+        intro cv1 ci1 hb hstep
+        rcases bindC_vals ps as hb y cval hy with h1 | ⟨h1, z, cz, h2, h3, h4⟩
+        · rcases hstep cval h1 with h5 | ⟨h5, z, cz, h6, h7, h8⟩
+          · exact Or.inl h5
+          · exact Or.inr ⟨by simp [h5], z, cz, argSyms_cons a as z (Or.inl h6), h7, h8⟩
+        · exact Or.inr ⟨by simp [h1], z, cz, argSyms_cons a as z (Or.inr h2), h3, h4⟩
+      cases k <;> cases v with
+      | int n =>
+          first
+            | exact lift h (fun cval' h' => Or.inl h')
+            | (simp [throw, throwThe, MonadExceptOf.throw] at h)
+      | val cvv =>
+          cases cvv with
+          | ptr b o =>
+              first
+                | (simp [throw, throwThe, MonadExceptOf.throw] at h; done)
+                | (refine lift h (fun cval' h' => ?_)
+                   by_cases hyx : y = x
+                   · subst hyx
+                     simp only [lookupSym, if_true, Option.some.injEq] at h'; subst h'
+                     exact Or.inr ⟨rfl, evalArg_buf hv⟩
+                   · simp only [lookupSym, hyx, if_false] at h'; exact Or.inl h')
+          | win b o ss =>
+              first
+                | (simp [throw, throwThe, MonadExceptOf.throw] at h; done)
+                | (refine lift h (fun cval' h' => ?_)
+                   by_cases hyx : y = x
+                   · subst hyx
+                     simp only [lookupSym, if_true, Option.some.injEq] at h'; subst h'
+                     exact Or.inr ⟨rfl, evalArg_buf hv⟩
+                   · simp only [lookupSym, hyx, if_false] at h'; exact Or.inl h')
+
+/-- the callee's frame satisfies the invariant of a function entry -/
+theorem Inv.frame {fs : FS} {base : Nat} {c : CState V} (h : Inv fs base c)
+    {ps : List (Sym × PKind)} {as : List CArg} {ci : List (Sym × Int)} {cv : List (Sym × CVal)}
+    (hb : bindC c ps as [] [] = .ok (ci, cv)) (hu : (argSyms as).all fs.okUse = true) :
+    Inv ⟨[], [], [], ps.map (·.1)⟩ c.heap.length ({ c with ints := ci, vals := cv } : CState V) := by
+  have hv := bindC_vals ps as hb
+  refine ⟨h.len, Nat.le_refl _, ?_, ?_, fun p hp => (by cases hp), fun d hd => (by cases hd), ?_,
+    fun x hx => (by cases hx), fun x hx => (by cases hx), ?_⟩
+  · intro y hy
+    cases hl : lookupSym y cv with
+    | none => rw [hl] at hy; cases hy
+    | some cval =>
+        rcases hv y cval hl with h1 | ⟨h1, _⟩
+        · cases h1
+        · exact h1
+  · intro y cval hy
+    rcases hv y cval hy with h1 | ⟨_, z, cz, _, h3, h4⟩
+    · cases h1
+    · rw [← h4]; exact h.bufs z cz h3
+  · intro y cval hy hf
+    rcases hv y cval hy with h1 | ⟨_, z, cz, h2, h3, h4⟩
+    · cases h1
+    · rw [List.all_eq_true] at hu
+      have := h.notFreed (hu z h2) h3
+      rw [h4] at this
+      exact absurd hf this
+  · intro b hb' hl
+    have := idx_lt hl
+    have h2 := h.len
+    simp only at this hb'
+    omega
 
 mutual
 theorem freeS : ∀ (s : CStmt) {fs fs' : FS} {base : Nat} {c c' : CState V},
@@ -164,7 +289,7 @@ theorem freeS : ∀ (s : CStmt) {fs fs' : FS} {base : Nat} {c c' : CState V},
           split at hbt
           · rename_i fs1 hfs1
             have st := freeL t hfs1 h.enter h1
-            obtain ⟨r1, r2, r3, r4, r5⟩ := block_step h rfl rfl rfl hfs1 hbt st he
+            obtain ⟨r1, r2, r3, r4, r5⟩ := block_step h rfl rfl hbt st he
             exact Step.same r1 h r3 r4 r5
           · cases hbt
         · rw [if_neg hb0] at he ⊢
@@ -174,7 +299,7 @@ theorem freeS : ∀ (s : CStmt) {fs fs' : FS} {base : Nat} {c c' : CState V},
           split at hbt
           · rename_i fs1 hfs1
             have st := freeL e hfs1 h.enter h1
-            obtain ⟨r1, r2, r3, r4, r5⟩ := block_step h rfl rfl rfl hfs1 hbt st he
+            obtain ⟨r1, r2, r3, r4, r5⟩ := block_step h rfl rfl hbt st he
             exact Step.same r1 h r3 r4 r5
           · cases hbt
       · cases hf
@@ -201,7 +326,7 @@ theorem freeS : ∀ (s : CStmt) {fs fs' : FS} {base : Nat} {c c' : CState V},
                 hp.1.congr rfl rfl rfl
               have st := freeL body hfs1 hia.enter h2
               obtain ⟨r1, r2, r3, r4, r5⟩ := block_step (cb := { ca with ints := (i, v) :: ca.ints })
-                hp.1 rfl rfl rfl hfs1 hb st h1
+                hp.1 rfl rfl hb st h1
               exact ⟨r1, r2, r3.trans hp.2.1, r4.trans hp.2.2.1, r5.trans hp.2.2.2⟩)
             _ _ c c' ⟨h, rfl, rfl, rfl⟩ he
           exact Step.same key.1 h key.2.2.1 key.2.2.2.1 key.2.2.2.2
@@ -257,6 +382,26 @@ theorem freeS : ∀ (s : CStmt) {fs fs' : FS} {base : Nat} {c c' : CState V},
         have hw' : w ∉ fs.vis := by simpa using hw
         obtain ⟨cvs, o, ss, hs, rfl⟩ := winInit_shape he
         exact ⟨he, h.window hw' hs _ _, Nat.le_refl _, fun _ _ => rfl⟩
+  | .call (.mk nm ps body) args, fs, fs', base, c, c', hf, h, he => by
+      simp only [fsS] at hf
+      split at hf
+      · rename_i hb
+        simp only [Option.some.injEq] at hf; subst hf
+        rw [Bool.and_eq_true] at hb
+        simp only [execCS] at he ⊢
+        obtain ⟨⟨ci, cv⟩, hbind, he⟩ := bind_ok he
+        obtain ⟨c1, h1, he⟩ := bind_ok he
+        simp only [hbind, ok_bind]
+        have hbt := hb.2
+        unfold blockOK at hbt
+        split at hbt
+        · rename_i fs1 hfs1
+          have st := freeL body hfs1 (h.frame hbind hb.1) h1
+          obtain ⟨r1, r2, r3, r4, r5⟩ := block_step (cb := { c with ints := ci, vals := cv })
+            h rfl rfl hbt st he
+          exact Step.same r1 h r3 r4 r5
+        · cases hbt
+      · cases hf
 theorem freeL : ∀ (ss : List CStmt) {fs fs' : FS} {base : Nat} {c c' : CState V},
     fsL fs ss = some fs' → Inv fs base c → execCL false ss c = .ok c' →
     Step fs' base c c' (execCL true ss c)
@@ -307,7 +452,7 @@ theorem freeOK_sound {vis0 : List Sym} {cs : List CStmt} {c c' : CState V}
     simp only [execCB] at h ⊢
     obtain ⟨c1, h1, hl⟩ := bind_ok h
     have st := freeL cs hfs1 hentry.inv h1
-    exact (block_step (cb := c) hentry.inv rfl rfl rfl hfs1 hok st hl).1
+    exact (block_step (cb := c) hentry.inv rfl rfl hok st hl).1
   · cases hok
 
 end Exo.CompileS
